@@ -258,6 +258,30 @@ def build():
     add("bptc", bptc, 4)
     add("vbptc", vbptc, 3)
     add("trellis", trellis, 3)
+
+    def trellis_stream(r):
+        """received rate-3/4 streams that are not encodings of a block with the flushing tribit: a valid point sequence whose 49th
+        tribit is not zero (decodable, ends in another state than 0), valid encodings with one to three inverted bits (mostly
+        rejected half way) and arbitrary 196 bits"""
+        from array import array
+        from okdmr.dmrlib.etsi.fec.trellis import Trellis34
+        kind = r.randrange(4)
+        if kind == 0:
+            e = rbits(r, 196)
+        elif kind == 1:
+            e = Trellis34.encode(rbits(r, 144))
+            for _ in range(r.randrange(1, 4)):
+                e.invert(r.randrange(196))
+            track(e)
+        else:
+            tri = array("B", [r.randrange(8) for _ in range(48)] + [r.randrange(1, 8)])
+            e = track(Trellis34.dibits_to_bits(Trellis34.interleave(Trellis34.points_to_dibits(Trellis34.tribits_to_points(tri)))))
+        try:
+            return Trellis34.decode(e), [e]
+        except AssertionError as ex:
+            return ex, [e]
+
+    add("trellis_stream", trellis_stream, 10)
     add("cs5", cs5, 2)
 
     # ---------------------------------------------------------------- layer 2/3 PDUs
@@ -596,6 +620,53 @@ def build():
         return out, []
 
     add("lrrp_token", lrrp_token, 2)
+
+    def lrrp_token_tables(r):
+        """every element token id 0x22..0x7F looked up by id, and every token name of the document family looked up by name, for
+        requests and for answers / reports: the class-level token tables as the public look-up shows them"""
+        from okdmr.dmrlib.motorola.lrrp import LRRP
+        out = []
+        for is_request in (True, False):
+            names = []
+            for tid in range(0x22, 0x80):
+                try:
+                    t = LRRP.get_token(tid, None, {}, is_request=is_request)
+                    out.append((is_request, tid, None if t is None else (t.name, struct(t.token_type) if hasattr(t, "token_type") else None, t.token_id)))
+                    if t is not None and t.name not in names:
+                        names.append(t.name)
+                except Exception as ex:  # noqa
+                    out.append((is_request, tid, ex))
+            for n in names:
+                try:
+                    t = LRRP.get_token(n, None, {}, is_request=is_request)
+                    out.append((is_request, n, None if t is None else t.token_id))
+                except Exception as ex:  # noqa
+                    out.append((is_request, n, ex))
+        return out, []
+
+    add("lrrp_token_tables", lrrp_token_tables, 2)
+
+    def lrrp_generated(r):
+        """a generated document of either family (request / answer-report), built token by token, serialised and parsed"""
+        from okdmr.dmrlib.motorola.lrrp import LRRP
+        from okdmr.dmrlib.motorola.mbxml import MBXML, MBXMLDocument, MBXMLTokenType, MBXMLDocumentIdentifier as DI
+        is_request = bool(r.getrandbits(1))
+        did = r.choice([DI.LRRP_ImmediateLocationRequest_NCDT, DI.LRRP_TriggeredLocationRequest_NCDT] if is_request
+                       else [DI.LRRP_ImmediateLocationReport_NCDT, DI.LRRP_TriggeredLocationReport_NCDT])
+        try:
+            toks = [LRRP.get_token("request-id", bytes(r.getrandbits(8) for _ in range(r.randrange(1, 5))), {}, is_request=is_request)]
+            if is_request:
+                toks.append(LRRP.get_token("oneshot-trigger", None, {}, is_request=True))
+            cfg = LRRP.get_configuration(did)
+            doc = MBXMLDocument(document_id=did, elements_config=cfg[MBXMLTokenType.ELEMENT_TOKEN], attributes_config=cfg[MBXMLTokenType.ATTRIBUTE_TOKEN])
+            doc.parts.extend(toks)
+            raw = MBXML.as_bytes(doc)
+            docs = MBXML.from_bytes(raw)
+            return (raw, [MBXML.as_bytes(d) for d in docs], [d.as_xml() for d in docs]), []
+        except Exception as ex:  # noqa
+            return ex, []
+
+    add("lrrp_generated", lrrp_generated, 6)
 
     def tms_ars(rel, mod, cls):
         samples = harvest(rel)
